@@ -5,8 +5,8 @@ NOTE = ("Trusted: rustc 1.95 (expansion, name resolution, trait selection, borro
 
 CHECKS = {
     "C01": dict(
-        text="Every parameter word up to the bound over an 8-symbol parameter alphabet, crossed with 7 dependency forms, sync/async, "
-             "single fn / 3 same-signature sibling fns in a module, mockable or not, both crate features, is compiled with the real "
+        text="Every parameter word up to the bound over an 8-symbol parameter alphabet, crossed with 8 dependency forms (incl. by-value concrete), sync/async, "
+             "single fn / 3 same-signature sibling fns in a module / macro_rules-stamped fn with hygiene-only parameter differences, mockable or not, both crate features, is compiled with the real "
              "macro and executed; the trait call's trace (function id, receiver address+type, position-coded arguments), result and "
              "&mut effects must equal the model's prediction and the direct call's. Exhaustive enumeration, no sampling.",
         note=NOTE, technique="bounded-exhaustive explicit-state enumeration of programs, executed on the real macro, compared with a reference model",
@@ -31,7 +31,7 @@ CHECKS = {
         note=NOTE, technique="bounded-exhaustive enumeration of signatures on the real macro; fixpoint compilation + fn-pointer coercion witnesses + executed client",
         ref="DESIGN.md §3 C03"),
     "C04": dict(
-        text="All 8 subsets S of three marker bounds x 5 declaration forms (inline, where, impl A+B, split, duplicated) x receiver by ref/by value "
+        text="All 8 subsets S of three bounds (two of them instantiations of one generic trait) x sync / async / async ?Send x 5 declaration forms (inline, where, impl A+B, split, duplicated) x receiver by ref/by value "
              "x 6 mock settings (none, mockall, mockall=false, mock_api only, mock_api+unimock, unimock=false) x both crate features for single fns, and "
              "all 64 pairs (S1,S2) x receiver combinations x mock settings for two-fn modules (three-fn modules in thorough). Per state 48 runtime "
              "availability probes `implements!(X: Tr)` / `implements!(Impl<X>: Tr)` over probe types implementing exactly each subset in three auto-trait "
@@ -48,28 +48,28 @@ CHECKS = {
         note=NOTE, technique="exhaustive enumeration of concrete-dependency programs on the real macro; executed trace + availability probes vs model",
         ref="DESIGN.md §3 C05"),
     "C06": dict(
-        text="Every method word of length <= 2 (quick) / <= 3 (thorough) over 12 method shapes (0-2 arguments incl. same-typed adjacent ones, &str, borrowed "
+        text="Every method word of length <= 2 (quick) / <= 3 (thorough) over 16 method shapes (provided methods incl. `where Self: Sized` and pattern parameters, a macro_rules-stamped hygiene shape, 0-2 arguments incl. same-typed adjacent ones, &str, borrowed "
              "returns from arguments and from self, trait-generic and method-generic parameters, four async shapes) x selector {default, Self, ref, Borrow} x "
-             "generic trait x supertrait/where clause x {native async, async_trait} is compiled and run against a tracing provider: one event per call, on "
+             "{non-generic, generic, bound+default generic} trait x supertrait/where clause x {native async, async_trait} is compiled and run against a tracing provider: one event per call, on "
              "the provider reached through the selected route (address), arguments in order, result unchanged; and `Impl<X>: Trait` is probed at run time "
              "for a family of X (no provider, provider by Self / AsRef / Borrow, Sync-only and !Sync flavours) and must be true exactly for the selected route.",
         note=NOTE + " Traits that are not dyn-compatible are pruned for ref/Borrow; dyn delegation of a generic trait is exercised with `G: 'static`.",
         technique="bounded-exhaustive enumeration of trait definitions on the real macro; executed trace + runtime availability truth table vs model",
         ref="DESIGN.md §3 C06"),
     "C07": dict(
-        text="Every method word of length <= 2 (quick) / <= 3 (thorough) over 10 shapes (0-2 same-typed arguments, &str, named lifetimes with and without "
-             "the lifetime on the receiver, four async shapes; same-signature pairs included) x {static `delegate_by = Sel`, dynamic `delegate_by = ref` "
-             "(+ async_trait when async)} x 6 assignments of further dependency bounds to the block's fns (0/1/2 bounds, increasing, decreasing, disjoint), "
+        text="Every method word of length <= 2 (quick) / <= 3 (thorough) over 13 shapes (0-2 same-typed arguments, &str, named lifetimes with and without "
+             "the lifetime on the receiver, return borrowed from deps, provided method with Self: Sized, macro_rules-stamped hygiene shape, four async shapes) x {static `delegate_by = Sel`, dynamic `delegate_by = ref` "
+             "(+ async_trait when async)} x 8 assignments of further dependency bounds to the block's fns (0/1/2 bounds, increasing, decreasing, disjoint, two instantiations of one generic trait), "
              "with two competing target types X1/X2 of identical method names selected by AppA/AppB: every call must produce exactly one event, from the "
              "selected target's function of that name, whose deps argument is the caller's &Impl<App> (address + type), arguments in order, result unchanged; "
              "the block's functions call further (non-blanket) dependencies through deps.",
         note=NOTE, technique="bounded-exhaustive enumeration of delegated traits + impl blocks on the real macro; executed trace vs model",
         ref="DESIGN.md §3 C07"),
     "C08": dict(
-        text="Every module item word up to the bound (full 30-symbol alphabet: every visibility and every const/async/unsafe/extern "
+        text="Every module item word up to the bound (full 31-symbol alphabet: every visibility and every const/async/unsafe/extern "
              "qualifier combination on visible and private fns, structs+impls, nested mods, extern blocks, macro_rules, body-less "
              "declarations, consts with blocks, uses, statics, traits; longer words over a 14-symbol core alphabet) x requested trait "
-             "visibility is expanded by the real macro; the method list of the generated trait must equal the model's filter "
+             "visibility (none, pub, pub(crate), pub(in path)), plus macro_rules-stamped modules (block / expr / ty / vis / ident fragments), is expanded by the real macro; the method list of the generated trait must equal the model's filter "
              "(visible fn with a body, source order) and, where the word can compile, a client in the parent scope and at crate level "
              "calls every expected method through the re-export.",
         note=NOTE, technique="bounded-exhaustive enumeration of module bodies; structural view of recorded expansion + executed client vs filter model",
@@ -85,8 +85,8 @@ CHECKS = {
         technique="deviation-bounded exhaustive enumeration of trait definitions on the real macro; structural identity model + executed client",
         ref="DESIGN.md §3 C09"),
     "C10": dict(
-        text="The complete 1296-point lattice {macro name} x {crate feature} x unimock{absent,true,false} x mock_api x mockall{absent,true,false} "
-             "x export{absent,true,false} x {fn,mod,trait} x {cfg(test), not(test)} is enumerated without pruning; per point the attributes on the "
+        text="The complete 3024-point lattice {macro name} x {crate feature} x unimock{absent,true,false} x mock_api x mockall{absent,true,false} "
+             "x export{absent,true,false} x {fn, fn with concrete deps, mod, trait} x requested visibility {pub, pub(crate)} x {cfg(test), not(test)} is enumerated without pruning; per point the attributes on the "
              "emitted trait (none / cfg_attr(test,..)-gated / ungated) and, in the compiled crate, the existence of the unimock API / "
              "`Unimock: Trait` / the mockall struct (runtime booleans from probe code, in a --cfg test and a plain build) must equal the decision table.",
         note=NOTE + " unimock 0.6.8 / mockall 0.12.1 derives as shipped.",
@@ -95,7 +95,8 @@ CHECKS = {
     "C11": dict(
         text="(unimock feature on, --cfg test) Every argument word <= 2 (quick) / <= 3 (thorough) over {i64, &str, destructured tuple} x deps {&impl, &D, "
              "no_deps, concrete} x sync/async for single fns, modules of three same-signature fns declared in non-alphabetical order, entraited traits with "
-             "three same-signature methods, and macro_rules-stamped fns whose parameters differ only in hygiene: the mock API must resolve under exactly the "
+             "three same-signature methods, macro_rules-stamped fns whose parameters differ only in hygiene, a `#[cfg]`-attributed module fn, and the same wiring spelled through "
+             "entrait_export / explicit export / export=false / mockall: the mock API must resolve under exactly the "
              "mock_api name; a clause matching the position-coded arguments answers the call and a clause with permuted arguments does not; on "
              "Unimock::new_partial(()) the ORIGINAL function must run once with the Unimock instance as deps (address + type name), same arguments, same "
              "result as the Impl<T> path; concrete-deps fns and entraited traits must panic with 'cannot be unmocked'.",
@@ -105,7 +106,7 @@ CHECKS = {
     "C12": dict(
         text="6 input modes (fn, mod, entraited trait, trait + static impl block, leaf trait by ref, trait + dyn impl block) x 5 return kinds (unit, owned, "
              "borrowed from deps, borrowed from an argument with a named lifetime, generic) x {default, ?Send} x {native, async_trait} x {clean body, body "
-             "holding an Rc across an await}: every state is compiled; the Output type is ascribed (`output_is::<R,_>`), declared Send-ness is read as a "
+             "holding an Rc across an await} x {all async, sync companion method} x {required, provided (default-bodied) async method}: every state is compiled; the Output type is ascribed (`output_is::<R,_>`), declared Send-ness is read as a "
              "runtime boolean in a generic context `fn p<D: Tr>(d: &D)`, the future is driven to completion and its value compared; non-Send bodies must "
              "compile under ?Send and be rejected ('cannot be sent between threads') by default; under async_trait the async fn must be kept and the "
              "attribute re-applied to every generated trait and trait impl (structural view).",
@@ -122,7 +123,7 @@ CHECKS = {
         ref="DESIGN.md §3 C13"),
     "C14": dict(
         text="Bottom-level input mode {fn, mod, entraited trait, trait + static impl block} x sync/async x call-chain depth 1..3 (1..5 thorough) x arity "
-             "0..2 x {elided, named lifetime + borrowed argument}: level i of the chain allocates exactly i boxes, the client counts heap allocations "
+             "0..2 x {elided, named lifetime, two lifetimes with an outlives bound, generic async method, provided method mentioning its own name}: level i of the chain allocates exactly i boxes, the client counts heap allocations "
              "(counting global allocator, allocation-free executor) around the direct call and around the call through the generated trait; both must "
              "equal d(d+1)/2 and give the same result; the generated part of every recorded expansion must not mention dyn / Box / Pin / async_trait.",
         note=NOTE + " Debug build: Box::new allocates exactly once.",
@@ -132,7 +133,8 @@ CHECKS = {
         text="(i) every attribute-argument token word up to length 3 (quick) / 4 (thorough) over a 23-token alphabet (option names, values, "
              "punctuation, keywords, literals, a parenthesised group) on fn, mod, trait and impl items (~50k invocations in quick); (ii) 39 documented-misuse "
              "and unsupported-item cases x both macro names, each in its own compiler process; (iii) every trait-method parameter-pattern word "
-             "<= 2 over 10 patterns x {declaration, default body} x 6 delegation kinds. For every invocation: no panic record and no `custom attribute "
+             "<= 2 over 10 patterns x {declaration, default body} x 6 delegation kinds; (iv) fn-signature pattern words x 4 contexts x {f, r#type}; (v) every sequence <= 2 (3) of 7 signature shapes (where "
+             "clauses with / without trailing comma, lifetime-only dependency bounds, HRTB predicates, async) inside one module / impl block. For every invocation: no panic record and no `custom attribute "
              "panicked`, the recorded output parses as Rust items, a rejection is reported by rustc inside the invocation's own lines; documented misuses "
              "give their specific message on the line of the offending tokens.",
         note=NOTE, technique="bounded-exhaustive enumeration of attribute token words / item kinds / pattern words through the real macro; diagnostic-channel oracle",
@@ -141,29 +143,29 @@ CHECKS = {
         text="Every pattern word up to length 3 (quick) / 4 (thorough) over a 15-symbol pattern alphabet (plain, mut, ref, raw identifier, wildcard, "
              "tuple, tuple-struct with 1 binding, with binding+wildcard, struct pattern, reference pattern, binding named like the function, bindings "
              "named like would-be generated names argN/_argN/f_, destructuring whose binding is the function name) x {generic deps, no_deps, module fn, "
-             "impl-block fn} x fn name {f, r#type} is compiled and run; the generated method's parameter list must satisfy the naming specification and "
+             "impl-block fn, provided method of an entraited trait} x fn name {f, r#type} is compiled and run; the generated method's parameter list must satisfy the naming specification and "
              "the trait call must forward position-coded arguments positionally.",
         note=NOTE, technique="bounded-exhaustive enumeration of pattern lists on the real macro; specification model + executed trace",
         ref="DESIGN.md §3 C16"),
     "C17": dict(
         text="State graph whose nodes are option sets and whose edges append one option: every ordered selection of the six fn/mod options "
              "and the five trait options (every path into every node), plus all 4^4 value-form combinations {absent,bare,=true,=false} of the "
-             "boolean options x mock_api x ?Send, under both macro names and both crate features, on fn/mod/trait/impl items (~11k invocations). "
+             "boolean options x mock_api x ?Send, under both macro names and both crate features, on fn / concrete-deps fn / parameterless fn / mod / trait / impl items (~11.6k invocations). "
              "Invocations with the same semantic key (derived from the statement only) must expand to identical token trees; options outside "
              "their documented target must be rejected, documented ones accepted.",
         note=NOTE, technique="exhaustive path enumeration of the option state graph, metamorphic token-equality oracle on the real macro",
         ref="DESIGN.md §3 C17"),
     "C18": dict(
         text="Every placement word of <= 2 (quick) / <= 3 (thorough) (site, attribute) pairs per input mode - sites: above / below entrait, on a plain / "
-             "destructured / wildcard parameter, on the module, on a module fn, on the trait, on a trait method, on the impl block, on an impl-block fn; "
-             "attributes: doc, allow, inline, must_use, cfg(all()), cfg(any()) (with a body and return type that cannot compile), an identity proc-macro "
-             "and a counting proc-macro - is compiled and run. Generated traits/impls/methods may carry nothing from the user except mirrored cfg "
+             "destructured / wildcard parameter, on concrete-deps fns, on the module, on a module fn, on the trait, on a trait method, on the impl block, on an impl-block fn; "
+             "attributes: doc, allow, inline, must_use, cfg(all()), cfg(any()) (with a body and return type that cannot compile), an identity proc-macro, "
+             "a counting proc-macro and the counting macro wrapped in cfg_attr - is compiled and run. Generated traits/impls/methods may carry nothing from the user except mirrored cfg "
              "(mod / impl-block fns) or all method attributes (entraited traits); generated signatures carry no parameter attributes; programs with "
              "cfg(any()) members compile and the remaining methods work; the counting macro sees each function exactly once per compiler process.",
         note=NOTE, technique="bounded-exhaustive enumeration of attribute placements on the real macro; structural view + executed client + helper-macro invocation log",
         ref="DESIGN.md §3 C18"),
     "C19": dict(
-        text="15 programs (every input mode x delegation kind, sync and async, by-value, concrete, no_deps, static/dyn targets, async_trait), all invoked by "
+        text="18 programs (every input mode x delegation kind, sync and async, ?Send, by-value, concrete, no_deps, static/dyn targets, async_trait), all invoked by "
              "absolute path with no imports, x {empty scope, each of 20 local decoy items alone (traits Send/Sync/Sized/Future/AsRef/Borrow/Unpin, structs "
              "Impl/Box/Pin, modules core/entrait/std/alloc/future/marker/convert/borrow, value-namespace unit structs and consts), all decoys together, the "
              "trait itself named Send/Sync/Sized/Future/AsRef/Impl/Box/Unpin}: each state is compiled and run and must give the model's values and the same "
@@ -173,9 +175,9 @@ CHECKS = {
         technique="exhaustive enumeration of (program x hostile scope) on the real macro; differential + model oracle, structural path-root scan",
         ref="DESIGN.md §3 C19"),
     "C20": dict(
-        text="Every sequence with repetition over 10 representative invocations up to length 3 (quick) / 4 + all 720 permutations of six (thorough) "
+        text="Every sequence with repetition over 12 representative invocations up to length 3 (quick) / 4 + all 720 permutations of six (thorough) "
              "is expanded inside one compiler process per history; each invocation's recorded (attr, input, output) at every position must equal "
-             "the record of the same invocation expanded alone. The corpus is also expanded under 6 environments x {alone, 16 concurrent processes}. "
+             "the record of the same invocation expanded alone. The corpus is also expanded under 7 environments (incl. the variables build tools / CI / docs.rs set) x {alone, 16 concurrent processes}. "
              "Hash-seed independence is only sampled (R fresh processes) and reported as such.",
         note=NOTE + " std RandomState seeds are not controlled (sampled, outside the exhaustive claim).",
         technique="exhaustive enumeration of invocation histories per compiler process, differential oracle (alone vs in-history)",
